@@ -86,7 +86,8 @@ Proof.
   unfold encode_publish. rewrite publish_command_arith by assumption.
   assert (byte_ok (48 + (8 * b2z (p_dup a) + 2 * p_qos a + b2z (p_retain a))) = true) as ->.
   { unfold qos_ok, byte_ok in *. destruct (p_dup a), (p_retain a); cbn [b2z]; lia. }
-  cbn [negb]. assert (publish_struct_ok a = true) as ->; [|reflexivity].
+  cbn [negb]. assert (publish_remlen v a >? rl_max = false) as -> by lia.
+  assert (publish_struct_ok a = true) as ->; [|reflexivity].
   unfold publish_struct_ok, text_ok, mid_ok, str16_ok, u16_ok, qos_ok in *. split_andb.
   apply andb_true_iff; split; [lia|].
   destruct (p_qos a =? 0) eqn:E; cbn [orb] in *.
@@ -213,6 +214,7 @@ Qed.
 Lemma encode_connect_ok v a : representable_connect v a = true -> encode_connect v a = Ok (connect_bytes v a).
 Proof.
   unfold representable_connect, encode_connect. intros H. split_andb.
+  assert (connect_remlen v a >? rl_max = false) as -> by lia.
   assert (connect_struct_ok a = true) as ->; [|reflexivity].
   unfold connect_struct_ok, text_ok in *. split_andb.
   assert (E1 : u16_ok (c_keepalive a) = true) by assumption.
@@ -421,10 +423,14 @@ Proof.
   - split_andb. unfold encode_ack, mid_ok, u16_ok in *. assert ((0 <=? m) && (m <=? 65535) = true) as -> by lia.
     reflexivity.
   - reflexivity.
-  - unfold encode_disconnect, representable_disconnect in *. destruct (is_v5 v); [|reflexivity].
-    split_andb. destruct r as [rc|]; [|reflexivity]. cbn [andb].
+  - unfold encode_disconnect, representable_disconnect, disconnect_remlen in *. destruct (is_v5 v); [|reflexivity].
+    split_andb.
+    assert (match r, p with None, None => 0 | Some _, None => 1 | _, Some p0 => 1 + len p0 end >? rl_max = false) as ->.
+    { destruct r, p; split_andb; unfold rl_max in *; lia. }
+    destruct r as [rc|]; [|reflexivity]. cbn [andb].
     assert (byte_ok rc = true) as -> by assumption. reflexivity.
   - unfold representable_subscribe, encode_subscribe in *. split_andb.
+    assert (subscribe_remlen v t p >? rl_max = false) as -> by lia.
     assert (u16_ok m = true) as -> by (unfold mid_ok, u16_ok in *; lia). cbn [negb].
     assert (forallb (fun tq => str16_ok (fst tq)) t = true) as ->.
     { eapply forallb_impl; [|eassumption]. intros x Hx. cbn beta in Hx.
@@ -434,6 +440,7 @@ Proof.
       split_andb. eapply opt_ok_byte; eassumption. }
     reflexivity.
   - unfold representable_unsubscribe, encode_unsubscribe in *. split_andb.
+    assert (unsubscribe_remlen v t p >? rl_max = false) as -> by lia.
     assert (u16_ok m = true) as -> by (unfold mid_ok, u16_ok in *; lia).
     assert (forallb str16_ok t = true) as ->.
     { eapply forallb_impl; [|eassumption]. intros x Hx.
